@@ -291,36 +291,49 @@ type wire struct {
 	links      []*pipe.Link
 	abAtAccept int
 	startDial  time.Duration
+	seen       map[string]bool
+	dead       bool
 }
 
 func (w *wire) attach(l *pipe.Link) {
 	w.links = append(w.links, l)
+	if w.dead {
+		l.Kill() // the run is being wound up: nothing may block on a late link
+	}
 	l.Tap(func(p []byte) {
 		a, b := w.ab, w.ab+len(p)
 		w.ab = b
 		switch {
 		case a < w.l && b > w.l:
-			w.sim.Probe("c2s-payload-in-same-segment-as-password-line")
+			w.seen["c2s-payload-in-same-segment-as-password-line"] = true
 		case a < w.l1 && b > w.l1:
-			w.sim.Probe("c2s-callsign-and-password-line-share-a-segment")
+			w.seen["c2s-callsign-and-password-line-share-a-segment"] = true
 		}
 		if (a > 0 && a < w.l1) || (a > w.l1 && a < w.l) {
-			w.sim.Probe("c2s-login-line-split")
+			w.seen["c2s-login-line-split"] = true
 		}
 	}, func(p []byte) {
 		a, b := w.ba, w.ba+len(p)
 		w.ba = b
 		n1, n2 := len(prompt1), len(prompt1)+len(prompt2)
 		if (a > 0 && a < n1) || (a > n1 && a < n2) {
-			w.sim.Probe("s2c-prompt-split")
+			w.seen["s2c-prompt-split"] = true
 		}
 		if a < n2 && b > n2 {
-			w.sim.Probe("s2c-payload-in-same-segment-as-password-prompt")
+			w.seen["s2c-payload-in-same-segment-as-password-prompt"] = true
 		}
 	})
 }
 
+// flush turns the per-run observations into probe counts (one per run).
+func (w *wire) flush() {
+	for _, k := range core.SortedKeys(w.seen) {
+		w.sim.Probe(k)
+	}
+}
+
 func (w *wire) kill() {
+	w.dead = true
 	for _, l := range w.links {
 		l.Kill()
 	}
@@ -355,7 +368,11 @@ type run struct {
 
 func (r *run) newNet() {
 	r.n = simnet.New(r.sim)
-	r.n.LinkPlan = func(string, int) pipe.Plan { return r.p.Link }
+	// C15 has no link-fault arm ("TCP": reliable stream): only the schedule
+	// part of the link plan is used.
+	lp := r.p.Link
+	lp.Cut, lp.AB.Edits, lp.BA.Edits = nil, nil, nil
+	r.n.LinkPlan = func(string, int) pipe.Plan { return lp }
 	cd := us(r.p.ConnectUs)
 	if cd <= 0 {
 		cd = time.Millisecond
@@ -364,7 +381,7 @@ func (r *run) newNet() {
 		cd = endBudget / 4
 	}
 	r.n.ConnectDelay = func(string, int) time.Duration { return cd }
-	r.w = &wire{sim: r.sim, l1: len(r.call) + 1, l: len(r.call) + len(r.pass) + 2}
+	r.w = &wire{sim: r.sim, l1: len(r.call) + 1, l: len(r.call) + len(r.pass) + 2, seen: map[string]bool{}}
 	r.n.OnLink = func(_ string, _ int, l *pipe.Link) { r.w.attach(l) }
 	simnet.Use(r.n)
 }
@@ -793,6 +810,7 @@ func execute(t *testing.T, prop string, raw json.RawMessage, trace bool) core.Ou
 			SegAB: short(p.Link.AB.Seg), SegBA: short(p.Link.BA.Seg), LatAB: short(p.Link.AB.LatUs), LatBA: short(p.Link.BA.LatUs),
 			CoalesceAB: short(p.Link.AB.Coalesce), CoalesBA: short(p.Link.BA.Coalesce)}
 		sim.Probe("arm-" + p.Arm)
+		r.w.flush()
 		sim.FillOutcome(&out)
 	})
 	if pv != nil {
